@@ -13,7 +13,7 @@ from props import C10 as c10
 
 PROP = "C01"
 GEN_TARGETS = ["summarize_final", "failed_count", "failed_setup_script_count", "on_test_finished",
-               "on_setup_script_finished", "is_success", "exec_run_exit"]
+               "on_setup_script_finished", "is_success", "exec_run_exit", "command_exit"]
 # counters read by summarize_final (indices into the 17-vector)
 VERDICT_FIELDS = [0, 1, 2, 3, 5, 6, 7, 11, 13, 15]
 
